@@ -74,3 +74,5 @@ def run(ctx, rep):
     finally:
         C09.P = old
     parameters(F, rep)
+    from props import _viewread
+    _viewread.run(F, rep, "C01.view-read")
